@@ -40,6 +40,10 @@ pub struct Outcome {
     pub nontrivial: bool,
     pub sim_time_ns: u128,
     pub steps: u64,
+    /// Executions performed inside this run (0 = 1); engines that enumerate faults per history set it.
+    pub evals: u64,
+    /// Distinct non-trivial cases inside this run beyond the run itself (counted, conservatively).
+    pub distinct_extra: u64,
     /// Human-readable history; only filled when asked for.
     pub trace: Vec<String>,
 }
@@ -197,6 +201,7 @@ pub struct Aggregate {
     pub evaluations: u64,
     pub nontrivial: u64,
     pub distinct_nontrivial: BTreeSet<u64>,
+    pub distinct_extra: u64,
     pub distinct_traces: BTreeSet<u64>,
     pub states: BTreeSet<u64>,
     pub faults: BTreeMap<&'static str, u64>,
@@ -210,14 +215,17 @@ pub struct Aggregate {
     pub samples: Vec<Value>,
     pub wall_s: f64,
     pub stopped_early: bool,
+    pub known_kept: BTreeMap<&'static str, u64>,
 }
 
 impl Aggregate {
     fn absorb(&mut self, idx: u64, o: Outcome, rec: &[u32], property: &str) {
-        self.evaluations += 1;
+        self.evaluations += o.evals.max(1);
         if o.nontrivial {
             self.nontrivial += 1;
-            self.distinct_nontrivial.insert(o.trace_hash);
+            if self.distinct_nontrivial.insert(o.trace_hash) {
+                self.distinct_extra += o.distinct_extra.saturating_sub(1);
+            }
         }
         self.distinct_traces.insert(o.trace_hash);
         self.states.extend(o.states.iter().copied());
@@ -245,6 +253,7 @@ impl Aggregate {
         self.evaluations += other.evaluations;
         self.nontrivial += other.nontrivial;
         self.distinct_nontrivial.extend(other.distinct_nontrivial);
+        self.distinct_extra += other.distinct_extra;
         self.distinct_traces.extend(other.distinct_traces);
         self.states.extend(other.states);
         for (k, v) in other.faults {
@@ -275,6 +284,7 @@ pub fn run_batch(engine: &dyn Engine, cfg: &BatchCfg) -> Aggregate {
     let total = Mutex::new(Aggregate::default());
     let start = Instant::now();
     let failures_seen = AtomicU64::new(0);
+    let known = load_known_findings(&cfg.verif_dir.join("known_findings.json"));
 
     std::thread::scope(|s| {
         for _ in 0..cfg.threads.max(1) {
@@ -306,10 +316,26 @@ pub fn run_batch(engine: &dyn Engine, cfg: &BatchCfg) -> Aggregate {
                                     "run": idx,
                                     "run_seed": run_seed(cfg, idx),
                                     "choices": ch.record.len(),
-                                    "history": o.trace.iter().take(60).cloned().collect::<Vec<_>>(),
+                                    "history": o.trace.iter().take(80).cloned().collect::<Vec<_>>(),
                                 }));
                             }
-                            let nfail = o.violations.iter().filter(|v| v.property == cfg.property).count();
+                            // violations matching a listed known finding do not stop the batch early,
+                            // and only the first few records of each are kept
+                            let nfail = o
+                                .violations
+                                .iter()
+                                .filter(|v| v.property == cfg.property && known_match(&known, v).is_none())
+                                .count();
+                            let mut o = o;
+                            o.violations.retain(|v| {
+                                if v.property == cfg.property && known_match(&known, v).is_some() {
+                                    let n = agg.known_kept.entry(v.rule).or_insert(0);
+                                    *n += 1;
+                                    *n <= 2
+                                } else {
+                                    true
+                                }
+                            });
                             agg.absorb(idx, o, &ch.record, cfg.property);
                             if nfail > 0 && failures_seen.fetch_add(nfail as u64, Ordering::Relaxed) > 200 {
                                 // enough to report; don't drown in failures on a broken tree
@@ -642,7 +668,7 @@ pub fn report(
     for part in parts.iter() {
         let a = &part.agg;
         evaluations += a.evaluations;
-        distinct_nontrivial += a.distinct_nontrivial.len() as u64;
+        distinct_nontrivial += a.distinct_nontrivial.len() as u64 + a.distinct_extra;
         states += a.states.len() as u64;
         wall += a.wall_s;
         sim_time_ns += a.sim_time_ns;
@@ -651,7 +677,7 @@ pub fn report(
         engines.push(json!({
             "engine": part.engine.name(),
             "label": part.cfg.label,
-            "runs": a.evaluations,
+            "executions": a.evaluations,
             "runs_requested": part.cfg.runs,
             "stopped_early_on_wall_clock": a.stopped_early,
             "nontrivial_runs": a.nontrivial,
